@@ -14,7 +14,8 @@ mbox  text/plain bodies: 1-3 messages per mailbox, single part or multipart/mixe
       delsp=yes is not generated (there a soft break is NOT a boundary; the code does not re-flow).
 plain .txt/.csv/.md/.json bytes in encodings whose detection is not statistical: ASCII, UTF-8 (BOM or not),
       UTF-16/32 with BOM, BOM-less UTF-16LE/BE and UTF-32LE/BE of Latin text (NUL pattern), ISO-2022-JP
-      (escape sequences); words of get_full_text() == words of the source, no character that is not in it.
+      (escape sequences; charset_normalizer takes ~1% of these for UTF-8: open known finding with a proposed patch);
+      words of get_full_text() == words of the source, no character that is not in it.
       8-bit legacy code pages depend on charset_normalizer's statistics (third party): not asserted.
 env   common.env_sweep over a sample of all of these + the repository fixtures through read_file.
 """
@@ -107,6 +108,16 @@ def is_tok(w: str) -> bool:
     return len(w) > 2 and w[0] == "T" and w[-1] == "x" and w[1:-1].isdigit()
 
 
+def table_tokens_ok(sheets, want, got_t) -> bool:
+    """iterate_tables(): the cells in row-major order, each once; the only cells that may be absent are those of a
+    row holding a single cell (the extractor's documented 'table name row' heuristic, C13's subject)."""
+    single = {cells[k] for _, cells in sheets for k in cells if sum(1 for (r, _) in cells if r == k[0]) == 1}
+    it = iter(want)
+    if len(set(got_t)) != len(got_t) or not all(any(t == w for w in it) for t in got_t):     # subsequence, no duplicates
+        return False
+    return all(t in single for t in set(want) - set(got_t))
+
+
 def xlsx_part(ctx):
     from sharepoint2text.parsing.extractors.ms_modern import xlsx_extractor as XX
     rng = ctx.rng
@@ -156,7 +167,7 @@ def xlsx_part(ctx):
             ctx.finding("xlsx:cell-text-lost-or-reordered" + ("" if dim else ":no-dimension-element"),
                         f"XLSX get_full_text(): cell tokens lost, duplicated or reordered (expected {len(want)}, got {len(got)}; "
                         f"worksheet {'with' if dim else 'WITHOUT'} <dimension>, shapes {shapes})", rep)
-        elif got_t != want:
+        elif not table_tokens_ok(sheets, want, got_t):
             ctx.finding("xlsx:table-cells-lost-or-reordered" + ("" if dim else ":no-dimension-element"),
                         f"XLSX iterate_tables(): cell tokens lost, duplicated or reordered (expected {len(want)}, got {len(got_t)})", rep)
     return samples
